@@ -72,7 +72,7 @@ PROPS = {
           "separated), next block, later blocks, i.e. while an earlier copy is pending, executed or rejected. Oracle (metamorphic): balances + every record of E in the chain with all "
           "copies equal those of one of the chains that keep a single copy, or of the chain with none. Second oracle (sub-test once, model-free invariant over the SQL statement history of the sync goroutine, "
           "on PEG-bank-era chains with holding windows over unrated heights, timeline and 2.0.2+ chains): counting only statements of block transactions that COMMIT, the outcome of a held transaction "
-          "(to_amount; PEG amount + refund of a PEG request) is written in at most one block and a PEG request at most once within it, and a batch is marked executed in at most one block. "
+          "(to_amount; PEG amount + refund of a PEG request) is written in at most one block and a PEG request at most once within it, a batch is marked executed in at most one block, and is given a verdict at all (executed or rejected) in at most one block. "
           "Non-trivial = E has an effect or is a recorded rejection / a held outcome was written; distinct by (start, kind, places, size).",
           quick=(8, 10), thorough=(16, 150), timeout=(600, 3000)),
  "C05": P("TestC05", "exploration",
@@ -98,7 +98,8 @@ PROPS = {
           "rapid generates the same activation-crossing 2.0 chains as C10 (zeroing, mint, snapshot + developer payout, SPR sets, transfers, conversions) x journal mode {rollback journal, WAL}. "
           "A reference run in step mode records the ledger after every height (D[h]) and every SQL call made while syncing (begin/exec/query/prepared exec+query/commit) with the block it belongs to. "
           "Crash points = (call k, before | after) for every call: a child daemon process (same test binary, real file database) syncs the chain and SIGKILLs itself at the point; plus, for every "
-          "statement, 'a block fails': the statement returns an error and the daemon is stopped right after the failed attempt. Oracle: a fresh daemon opens the file; version rows are exactly "
+          "statement, 'a block fails': the statement returns an error and the daemon is stopped right after the failed attempt; and, for every third statement, 'the daemon is told to stop': the context of the "
+          "sync loop is cancelled right before the statement (what SIGINT/SIGTERM do), the daemon winds down by itself. Oracle: a fresh daemon opens the file; version rows are exactly "
           "start+1..H, each once, contiguous; synced metadata = H = the height implied by the crash point (h-1 before the COMMIT of block h returns, h after); ledger dump == D[H] (all of the blocks "
           "<= H, nothing of H+1); after resuming to the tip ledger dump == D[tip]. quick: 40 points per chain (a third of them around COMMIT / sync-height writes, the rest stratified by mode x before/after x statement text so that every distinct statement is interrupted somewhere); thorough: up to 1,000 points per chain (chains with fewer are enumerated exhaustively, "
           "longer ones keep every call around COMMIT and sample the rest). "
@@ -162,7 +163,7 @@ PROPS = {
           quick=(8, 10), thorough=(16, 150)),
  "C15": P("TestC15", "exploration",
           "rapid generates chains with the developer-reward activation 1-2 blocks after the start, 2.0.2 either before or after the first 144-multiple (so developer payouts happen under both the 2000 PEG and the 2000x144 PEG rule), "
-          "the mint and mint-burn activations at drawn offsets, every alignment with the 144 cadence, and prior balances in several assets on the global burn and mint addresses (paid by generated transfers). Oracle with golden "
+          "the mint and mint-burn activations at drawn offsets (in a quarter of the chains the mint burn falls on a snapshot height, the minted supply being present at the snapshot before), every alignment with the 144 cadence, and prior balances in several assets on the global burn and mint addresses (paid by generated transfers). Oracle with golden "
           "constants copied into the harness (14 developer addresses/percentages, 31 mint rows, special addresses): balance of every address after every block == model; in particular the special addresses change at no other height "
           "than by transfers the generator sent, and at the adjustment heights every balance of the burn and mint addresses (all 62 assets, also those the adjustment does not name) and every non-PEG balance of a developer "
           "address at a payout height is C15's (zero-delta watch events). Non-trivial = a burn address with a balance is zeroed or >= 2 developer payouts; distinct by (start, activations, shape).",
